@@ -53,6 +53,11 @@ vnacal_new_t *vnacal_new_alloc(vnacal_t *vcp, vnacal_type_t type,
 		"vnacal_new_alloc: calibration matrix must be at least 1x1");
 	return NULL;
     }
+    if (MAX(m_rows, m_columns) > VNACAL_MAX_DIMENSION) {
+	_vnacal_error(vcp, VNAERR_USAGE,
+		"vnacal_new_alloc: calibration matrix is too large");
+	return NULL;
+    }
     if (frequencies < 0) {
 	_vnacal_error(vcp, VNAERR_USAGE,
 		"vnacal_new_alloc: frequencies cannot be negative");
